@@ -1,6 +1,7 @@
 #!/bin/bash
 # usage: confirm_seed.sh <ID> <demo file name> -- re-confirm a seeded change in its scratch worktree:
 #   suite passes with the change; demo fails with it and passes without it.
+#   DEMO_RUSTFLAGS='--cfg feoxdb_verif' for demos that use the hooks (the suite runs with the guard off).
 id="$1"; demo="$2"; wt="${3:-/tmp/mut_$id}"; seed="${4:-/verif/seeded/$id}"
 export CARGO_TARGET_DIR="$wt/target" CARGO_NET_OFFLINE=true
 cd "$wt" || exit 2
@@ -8,8 +9,8 @@ git checkout -q -- src && git apply "$seed/patch.diff" || { echo "patch does not
 mkdir -p tests; rm -f tests/demo_*.rs
 suite=$(cargo test --offline --no-fail-fast 2>&1 | grep -E "^test result" | awk '{p+=$4; f+=$6} END {print "passed=" p " failed=" f}')
 cp "$seed/$demo" tests/
-with=$(cargo test --offline --test "${demo%.rs}" 2>&1 | grep -E "^test result" | head -1)
+with=$(RUSTFLAGS="${DEMO_RUSTFLAGS:-${RUSTFLAGS:-}}" cargo test --offline --test "${demo%.rs}" 2>&1 | grep -E "^test result" | head -1)
 git checkout -q -- src
-without=$(cargo test --offline --test "${demo%.rs}" 2>&1 | grep -E "^test result" | head -1)
+without=$(RUSTFLAGS="${DEMO_RUSTFLAGS:-${RUSTFLAGS:-}}" cargo test --offline --test "${demo%.rs}" 2>&1 | grep -E "^test result" | head -1)
 rm -f tests/demo_*.rs
 echo "{\"id\": \"$id\", \"suite_with_change\": \"$suite\", \"demo_with_change\": \"$with\", \"demo_without_change\": \"$without\"}"
